@@ -99,6 +99,26 @@ Print Assumptions C17_remove_star_vertex_spec.
 Example C17_no_big_blocker_instance : no_big_blocker 3 hollow_triangle [0] /\ blk hollow_triangle = [[0; 1; 2]].
 Proof. exact no_big_blocker_instance. Qed.
 
+(* F. The representation invariant "contains = K on increasing lists, stored blockers = minimal non-faces of K of dimension
+   >= 2, stored once" is kept by remove_star(Simplex of dimension >= 2) in every case, and by remove_star(a,b) /
+   remove_star(vertex) when no blocker through the removed simplex is large; the new abstract complex is K_rs. *)
+Theorem C17_remove_star_simplex_keeps_representation : forall thr (c : cplx) K (sigma : simplex),
+  closed K -> represents c K -> inc sigma -> (3 <= length sigma)%nat -> K sigma = true ->
+  represents (remove_star_simplex thr c sigma) (K_rs K sigma).
+Proof. exact remove_star_simplex_keeps_representation. Qed.
+Print Assumptions C17_remove_star_simplex_keeps_representation.
+Theorem C17_remove_star_edge_keeps_representation : forall thr (c : cplx) K (a b : Z),
+  closed K -> represents c K -> a <> b -> no_big_blocker thr c [Z.min a b; Z.max a b] ->
+  K [Z.min a b; Z.max a b] = true ->
+  represents (remove_star_edge thr c a b) (K_rs K [Z.min a b; Z.max a b]).
+Proof. exact remove_star_edge_keeps_representation. Qed.
+Print Assumptions C17_remove_star_edge_keeps_representation.
+Theorem C17_remove_star_vertex_keeps_representation : forall thr (c : cplx) K (v : Z),
+  closed K -> represents c K -> no_big_blocker thr c [v] -> K [v] = true ->
+  represents (remove_star_vertex thr c v) (K_rs K [v]).
+Proof. exact remove_star_vertex_keeps_representation. Qed.
+Print Assumptions C17_remove_star_vertex_keeps_representation.
+
 (* C. Edge contraction on the abstract complex (simplices as vertex sets): the image under b |-> a is closed under
    non-empty subsets; freeing the simplices blocked only through ab first (contract_edge without the link condition)
    gives the same image; the executable specification spec_contract lists exactly the images. *)
